@@ -217,6 +217,9 @@ type Walk struct {
 	// for them on the current path is part of the exploration state, so a
 	// path that takes `!ok` and later `ok` for the same SSA value is pruned.
 	conds map[ssa.Value]int
+
+	seedBlock *ssa.BasicBlock
+	seedSucc  int
 }
 
 type wstate struct {
@@ -467,6 +470,14 @@ func (w *Walk) edgeAtom(b *ssa.BasicBlock, succ int, env []int8) (Atom, bool, bo
 	return Atom{Pred: pred, Truth: truth}, true, true, v, vt
 }
 
+// FromEdge explores from the target of the si-th successor edge of block b,
+// assuming the truth the edge gives to its condition (so that later tests of
+// the same condition value stay consistent).
+func (w *Walk) FromEdge(b *ssa.BasicBlock, si int) *Walk {
+	w.seedBlock, w.seedSucc = b, si
+	return w.From(b.Succs[si], 0)
+}
+
 // From explores from instruction index idx of block b (inclusive).
 func (w *Walk) From(b *ssa.BasicBlock, idx int) *Walk {
 	w.Reached = map[ssa.Instruction]bool{}
@@ -480,6 +491,28 @@ func (w *Walk) From(b *ssa.BasicBlock, idx int) *Walk {
 		env0[i] = -1
 	}
 	np := len(w.phis)
+	if w.seedBlock != nil {
+		if _, has, _, cv, cvt := w.edgeAtom(w.seedBlock, w.seedSucc, env0); has && cv != nil {
+			if k, ok := w.conds[cv]; ok {
+				if cvt {
+					env0[np+k] = 1
+				} else {
+					env0[np+k] = 0
+				}
+			}
+		}
+		// phis of the start block take the value of the seeding edge
+		pi := predIndex(w.seedBlock, w.seedSucc, b)
+		for _, in := range b.Instrs {
+			ph, ok := in.(*ssa.Phi)
+			if !ok {
+				break
+			}
+			if k, ok := w.phis[ph]; ok && pi < len(ph.Edges) && ph.Edges[pi] != ssa.Value(ph) {
+				env0[k] = int8(pi)
+			}
+		}
+	}
 	type item struct {
 		b   *ssa.BasicBlock
 		idx int
